@@ -336,6 +336,45 @@ def r04_4(ctx: Ctx) -> None:
     clip_e = [c for c in calls(func) if call_name(c) == "min" and clipped(
         c, lambda a: txt(a) in ("maximum", "len(self)"), ".end", 1)]
     ok = bool(clip_s) and bool(clip_e)
+    if not ok:
+        # any other spelling (explicit comparisons, named intermediates): the coordinate written into the first / last
+        # part on the arm that does not wrap, as one conditional expression, decided against max(0, S - d) / min(E + d, M)
+        from ..kernel import cond_env, subst
+
+        class _Atoms(ast.NodeTransformer):
+            def visit_Attribute(self, node: ast.Attribute) -> ast.AST:  # noqa: N802
+                if node.attr in ("start", "end") and isinstance(node.value, (ast.Name, ast.Subscript)):
+                    return ast.copy_location(ast.Name(id="S" if node.attr == "start" else "E", ctx=ast.Load()), node)
+                return self.generic_visit(node)
+
+            def visit_Call(self, node: ast.Call) -> ast.AST:  # noqa: N802
+                if txt(node) == "len(self)":
+                    return ast.copy_location(ast.Name(id="M", ctx=ast.Load()), node)
+                return self.generic_visit(node)
+
+        def decided(slot: str, position: int, spec: str) -> bool:
+            for store in [n for n in walk_local(func) if isinstance(n, ast.Assign) and txt(n.targets[0]) == f"parts[{slot}]"
+                          and isinstance(n.value, ast.Call) and call_name(n.value) == "FeatureLocation"
+                          and len(n.value.args) > position]:
+                block = getattr(store, "_parent", None)
+                arm = None
+                for field in ("body", "orelse"):
+                    stmts = getattr(block, field, None)
+                    if isinstance(stmts, list) and any(st is store for st in stmts):
+                        arm = stmts
+                if arm is None:
+                    continue
+                try:
+                    env = cond_env(arm[:[i for i, st in enumerate(arm) if st is store][0]], {})
+                    value = subst(store.value.args[position], env)
+                    value = inline_reaching(cfg, block, value, keep={"distance", "maximum"})
+                    value = rename(_Atoms().visit(value), {"distance": "d", "maximum": "M"})
+                    if decide(value, parse(spec), pre=parse("0 <= S and S < E and E <= M and 0 <= d"))[0]:
+                        return True
+                except (OutsideFragment, IndexError):
+                    continue
+            return False
+        ok = decided("0", 0, "max(0, S - d)") and decided("-1", 1, "min(E + d, M)")
     ctx.ob("R04.4", REC, func, "Record.extend_location", "linear clipping", ok,
            "without wrapping the extension is clipped to [0, record length]",
            form=f"{txt(clip_s[0]) if clip_s else ''}; {txt(clip_e[0]) if clip_e else ''}")
